@@ -91,7 +91,27 @@ fn run_pass(out: &mut Out, sc: usize, s: &J) -> (usize, usize) {
     (smax, vmax)
 }
 
+/// many dust UTxOs (too small to pay for a transaction of their own) next to a few ordinary ones, under a small transaction size: which
+/// UTxOs are left for the last transaction depends on the order in which the categorizer's hash sets hand them out
+fn gen_dust(rng: &mut Rng) -> J {
+    let n = 8 + rng.below(45);
+    let mut utxo = vec![];
+    for i in 0..n {
+        let kind = *rng.pick(&["ent", "ent", "base", "byron", "ptr"]);
+        let dust = rng.chance(1, 2);
+        let na = if dust || rng.chance(1, 2) { 0 } else { 1 + rng.below(6) };
+        let assets: Vec<J> = (0..na).map(|j| json!({"p": [1 + rng.below(3)], "n": jbytes(&[(i * 7 + j) as u8, j as u8]), "q_n": jn(1 + rng.below(1000))})).collect();
+        let coin = if dust { 150_000 + rng.below(120_000) } else { (match rng.below(3) { 0 => 1_300_000 + rng.below(400_000), 1 => 5_000_000_000 + rng.below(1000), _ => 2_000_000 + rng.below(20_000_000) }) + na * 300_000 };
+        utxo.push(json!({"tx": (i * 11) % 251 + 1, "ix": rng.below(3), "addr": {"kind": kind, "k": 1 + rng.below(5)}, "value": {"coin_n": jn(coin), "assets": assets}}));
+    }
+    let mut scn = json!({"pp": {"a": 44, "b": 155381, "cpb": 4310, "maxval": *rng.pick(&[5000u64, 300]), "maxtx": *rng.pick(&[16384u64, 2000, 1500, 1000])},
+           "target": {"kind": *rng.pick(&["ent", "base"]), "k": 14 + rng.below(2)}, "utxo": utxo});
+    if rng.chance(1, 2) { scn["rerun"] = json!("maxtx"); }
+    scn
+}
+
 fn gen(rng: &mut Rng) -> J {
+    if rng.chance(1, 6) { return gen_dust(rng); }
     let big = rng.chance(1, 6);
     let n = 1 + rng.below(if big { 60 } else { 12 });
     let npol = 1 + rng.below(4);
